@@ -795,6 +795,58 @@ def radius_append_rule(rep, u):
     return 1
 
 
+def dns_reported_size_rule(rep, u):
+    """dns_msg_question_add / dns_msg_rr_add report the new message size through their last parameter; the next record is
+    appended there.  The name written may be shorter than the 2 + name_len the pre-check assumes (the root name is one
+    byte, a compressed name ends in a two-byte pointer), so on success the reported size must be recomputed from what
+    dns_msg_name2sequence_of_labels actually wrote: msg_size + labels + fixed part (+ data).  Evaluated for the label
+    sizes 1 (root), 2 (pointer), 5 and name_len + 2 (plain); an exactly fitting buffer must be accepted."""
+    n = 0
+    HDR = 0x40000
+    for fname, fixed, has_data in (("dns_msg_question_add", 4, False), ("dns_msg_rr_add", 10, True)):
+        fn = u.fn(fname)
+        if fn is None:
+            raise driver.AnalysisBroken("anchor %s vanished" % fname)
+        rep.functions.add(fname)
+        pn = [p["n"] for p in fn.params]
+        outp = pn[-1]
+        calls = [c for _p, _r, c, _ps in fn.calls({"dns_msg_name2sequence_of_labels"})]
+        if len(calls) != 1:
+            raise driver.AnalysisBroken("%s: expected one dns_msg_name2sequence_of_labels call" % fname)
+        out_idx = len(calls[0]["args"]) - 1
+        for name_len, S, exact in ((0, 1, False), (0, 1, True), (3, 5, False), (3, 5, True), (11, 2, False), (11, 13, True)):
+            data_size = 4 if has_data else 0
+            end = 12 + S + fixed + data_size
+            cap = end if exact else 512
+            pe = r_stride.PE(u, call_default={"dns_msg_name2sequence_of_labels": 0})
+            pe.out_default = {"dns_msg_name2sequence_of_labels": {out_idx: S}}
+            bind = {p_: 0 for p_ in pn}
+            bind.update({"hdr": HDR, "msg_size": 12, "msgbuf_size": cap, "compress": 1, "name": 0x50000, "name_len": name_len, outp: 0x7000})
+            if has_data:
+                bind.update({"data_size": data_size, "data": 0x60000})
+            ev, ret = pe.trace(fn, bind)
+            n += 1
+            inst = "reported-size:%s[name %d, labels %d%s]" % (fname, name_len, S, ", exact fit" if exact else "")
+            desc = "%s reports msg_size + %d + %d%s as the new size when the name took %d byte(s)%s" % (
+                fname, S, fixed, " + data" if has_data else "", S, " and accepts a buffer of exactly that size" if exact else "")
+            if isinstance(ret, str):
+                rep.undecided("R-AGREE", fn, inst, desc, ret)
+                continue
+            got = ev[-1][1].get("*(%s)" % outp) if ev else None
+            if ret != 0:
+                if exact:
+                    rep.violated("R-AGREE", fn, inst, desc, "returns %s for a buffer of exactly %d bytes: the pre-check charges 2 + name_len = %d bytes for "
+                                 "a name that takes %d" % (ret, cap, 2 + name_len, S))
+                else:
+                    rep.violated("R-AGREE", fn, inst, desc, "returns %s with room to spare" % ret)
+            elif got != end:
+                rep.violated("R-AGREE", fn, inst, desc, "success with reported size %s, the record ends at %d: the next record is appended %s byte(s) "
+                             "behind it and the message no longer parses" % (got, end, (got - end) if isinstance(got, int) else "?"))
+            else:
+                rep.proved("R-AGREE", fn, inst, desc, "reported %d" % got)
+    return n
+
+
 # ------------------------------------------------------------------ R-PATH counter, R-SIB accessors, R-BAN compare
 
 def counter_rule(rep, u):
@@ -941,6 +993,7 @@ def run(rep, tier):
     # the header flag words are bit-field records declared once per host byte order: both declarations name the same wire bits
     rep.floor("DNS flag bit-fields (both byte orders)", r_bitlayout.check(rep, us, "proto/dns.h"), 13)
     radius_append_rule(rep, ur)
+    rep.floor("DNS append size cases", dns_reported_size_rule(rep, ud), 12)
     counter_rule(rep, ud)
     rep.floor("DNS header accessors", accessor_siblings(rep, ud), 16)
     ct_compare_rule(rep, ur)
